@@ -1,6 +1,7 @@
 import Kdf.Model.Layout
 import Kdf.Model.Scan
 import Kdf.Model.PgtArch
+import Kdf.Model.OsPick
 import Driver.Sys
 /-! Line protocol for stream `os` (C08).  See harness/s_os.c for the twin.
 
@@ -16,6 +17,10 @@ physmaps <maxaddr>                          sys_set_physmaps     ->  > physmaps 
 scan lm|hm|lu <slot> <addr> <limit>         lowest_mapped / highest_mapped / lowest_unmapped
 scan hl <slot> <addr> <limit> <off>         highest_linear
                                             ->  > scan <kind> <status> <addr> [<as> <base>]
+ospick pae <root_as> <root_addr> <direct>   check_pae (ia32.c)            ->  > ospick pae 52|32|fail
+ospick root <opt_as> <opt_addr> <cr3> <sym> get_linux_pgt_root (ia32.c), `-` = absent  ->  > ospick root <as> <addr>
+ospick xentext <slot>                       text probe sequence of map_xen_x86_64 through method <slot>
+                                            ->  > ospick xentext <first> <directmap-1T 0|1> | none
 dump                                        ->  > map <i> none|empty|<endoff:meth,...>  (5 lines)
                                                 > meth <i> ...                            (non-NOMETH slots), > end
 ```
@@ -108,6 +113,28 @@ def scan (s : St) (kind : String) (slot addr limit off : Nat) : String :=
       | .undef => s!"> scan {kind} UNDEF"
   | _ => s!"> scan {kind} UNMODELLED"
 
+def optNat (w : String) : Option Nat := if w = "-" then none else some w.toNat!
+
+def ospick (s : St) : List String → String
+  | ["pae", ras, raddr, direct] =>
+    let withPm (mx : Nat) : Mem := sysMem { s with ls := (setPhysmaps true s.ls mx).2 }
+    match Kdf.Model.OsPick.checkPae Kdf.Model.PgtArch.extra (withPm (2^52 - 1)) (withPm (2^32 - 1))
+            ⟨raddr.toNat!, asOf ras⟩ direct.toNat! with
+    | some b => s!"> ospick pae {b}"
+    | none => "> ospick pae fail"
+  | ["root", oas, oaddr, cr3, sym] =>
+    let opt : Option FullAddr := if oas = "-" then none else some ⟨oaddr.toNat!, asOf oas⟩
+    let r := Kdf.Model.OsPick.ia32LinuxRoot opt (optNat cr3) (optNat sym)
+    s!"> ospick root {showAs r.as} {r.addr}"
+  | ["xentext", slot] =>
+    match s.ls.sys.meths[slot.toNat!]? with
+    | some m =>
+      (match Kdf.Model.OsPick.xenTextPick (Kdf.Model.OsPick.isXenKtext Kdf.Model.PgtArch.extra (sysMem s) m) with
+       | some (a, f) => s!"> ospick xentext {a} {if f then 1 else 0}"
+       | none => "> ospick xentext none")
+    | none => "> ospick UNMODELLED"
+  | _ => "> bad-op"
+
 partial def loop (h : IO.FS.Stream) (s : St) : IO Unit := do
   let line ← h.getLine
   if line.isEmpty then return ()
@@ -137,6 +164,7 @@ partial def loop (h : IO.FS.Stream) (s : St) : IO Unit := do
     let s' := { s with ls := ls }
     dump s'
     loop h s'
+  | "ospick" :: rest => IO.println (ospick s rest); loop h s
   | ["dump"] => dump s; loop h s
   | ["scan", kind, slot, addr, limit] =>
     IO.println (scan s kind slot.toNat! addr.toNat! limit.toNat! 0); loop h s
